@@ -286,6 +286,8 @@ def _trace_job(job):
                              offer_set=kind[1], after_end=False)
     if kind == 'prefix':
         return history_trace(tid, d, v, h, illegal_at_each_prefix=True)
+    if kind == 'noafter':
+        return history_trace(tid, d, v, h, after_end=False)
     return history_trace(tid, d, v, h)
 
 
@@ -334,6 +336,24 @@ def run(pid: str, tier: str) -> int:
     for k, (d, v, h) in enumerate(q):
         jobs.append((('walk', tuple(bids) + (PASS, DBL, RDBL)) if pid == 'C03'
                      else 'walk', f'q{k}', d, v, h))
+    if pid == 'C03':
+        # every COMPLETE history of two-level same-strain ladders (and, in the
+        # thorough tier, of a three-bid ladder) is replayed on the real object:
+        # unlike the quotient walk this does not assume that the object is a
+        # function of the specification's fields
+        ladders2 = [[sd % 5, sd % 5 + 5]] if quick else \
+            [[s_, s_ + 5] for s_ in range(5)] + [[0, 1, 5]]
+        for lad in ladders2:
+            cfg = auction_cfg(lad, range(4) if len(lad) == 2 else [sd % 4], [sd % 4],
+                              invs=['ExportEnded'], view='StView')
+            res = tlc.run_tlc('Auction', cfg, workers=1, name='auction-complete',
+                              timeout=3000, long_run=True)
+            tlc.require_clean(res, 'complete histories')
+            if res.violated:
+                raise MachineryError(res.error_text[:2000])
+            chk.add_tlc(res, f'all complete histories of ladder {lad}')
+            for k, j in enumerate(res.json_lines):
+                jobs.append(('noafter', f'c{lad[0]}.{len(lad)}.{k}', j['d'], j['v'], j['h']))
     nsim = 150 if quick else 3000
     for spec in ('LegalSpec', 'SlowSpec'):
         sims = export_simulated(chk, nsim if spec == 'LegalSpec' else nsim // 5,
